@@ -402,7 +402,14 @@ fn signature(cfg: &FsCfg, hist: &[Op], clause: &str, obs: &str) -> (String, Vec<
                 Op::Mkdir(e) | Op::MkdirAll(e) => DIRS[*e as usize] == dn || crate::model::is_under(DIRS[*e as usize], dn),
                 _ => false,
             }) {
-                return (format!("fs-name-reuse:directory-remove-then-recreate|{obs}"), cur);
+                // which directory's sync exposes it: the re-created directory itself (the listed
+                // finding) or another one, e.g. its parent
+                let other_sync = cur.iter().rev().find_map(|x| match x {
+                    Op::SyncDir(sd) => Some(crate::ops::dir_name(*sd) != dn),
+                    _ => None,
+                });
+                let suffix = if other_sync == Some(true) { ":exposed-by-sync-of-another-directory" } else { "" };
+                return (format!("fs-name-reuse:directory-remove-then-recreate{suffix}|{obs}"), cur);
             }
         }
         if let Op::RemoveFile(f) = o {
@@ -555,7 +562,7 @@ impl System for FsSys {
                     }
                     let obs = v.sig.split('|').next().unwrap_or("").to_string();
                     let (sig, _) = signature(&self.cfg, &self.hist, &v.clause, &obs);
-                    if sig.starts_with("fs-name-reuse:") && !sig.contains(":recreated-with-truncate") {
+                    if sig.starts_with("fs-name-reuse:") && !sig.contains(":recreated-with-truncate") && !sig.contains(":exposed-by-sync-of-another-directory") {
                         self.terminal = true;
                         self.skipped = true;
                     } else {
